@@ -432,9 +432,8 @@ def windows(sem, scope):
         start = max(c['pre_eff'] for c in sem.crossings) - p if sem.crossings else 0
     out = []
     while start < T - p:
-        if start + N > T:
-            raise Outside('trial count is not a whole number of block repetitions')
-        out.append((start, start + N, sust))
+        # a last, partial repetition ends with the trial sequence ("only the first T generated ... will be used")
+        out.append((start, min(start + N, T), sust))
         start += step
     return out
 
